@@ -2,6 +2,7 @@
 //! real zlink code on generated inputs and prints one line per case (input + canonical observation).
 mod common;
 mod chain;
+mod env;
 mod rx;
 mod ser;
 mod server;
@@ -36,6 +37,8 @@ fn main() {
         "rx" => rx::main(&o),
         "rx-bounds" => rx::main_bounds(&o),
         "chain" => chain::main(&o),
+        "reply" => env::main_reply(&o),
+        "envelope" => env::main_envelope(&o),
         "ser" => ser::main(&o),
         "ser-f32" => ser::main_f32(&o),
         "srv" | "srv-faults" | "srv-stream" | "srv-fair" => server::main(&o, &scenario),
